@@ -7,10 +7,12 @@ package main
 import (
 	"fmt"
 	"math/rand"
+	"reflect"
 	"strings"
 )
 
-var c09TagPool = []string{"id", "name", "a", "b", "role", "x-id", "q", "note", "owner", "admin", "x", "y", "token", "page", "ids[]", "tags[]", "-"}
+var c09TagPool = []string{"id", "name", "a", "b", "role", "x-id", "q", "note", "owner", "admin", "x", "y", "token", "page", "ids[]", "tags[]", "-",
+	"x_id", "user_id", "user-id", "userid", "X-Is-Admin", "x_legacy_id", "trace.id"}
 
 type c09GenLeaf struct {
 	Tags map[string]string
@@ -241,6 +243,7 @@ func c09NearMissAll(t string) []string {
 		out = append(out, a+t)
 	}
 	out = append(out, "data["+t+"]", t+t, t+"="+t)
+	out = append(out, c09SeparatorVariants(t)...)
 	if len(t) > 1 {
 		out = append(out, t[:len(t)-1], t[1:])
 	}
@@ -375,6 +378,9 @@ func c09GenCase(r *rand.Rand) *c09Case {
 		}
 	}
 	pBad := []int{0, 0, 6, 25}[r.Intn(4)]
+	if r.Intn(60) == 0 { // a large key set: the keys that matter come after hundreds of others
+		c.Junk = []int{100, 255, 256, 257, 511, 513, 800}[r.Intn(7)]
+	}
 	switch k := r.Intn(100); {
 	case k < 12:
 		c.Op = "param"
@@ -391,6 +397,7 @@ func c09GenCase(r *rand.Rand) *c09Case {
 	c.Query = c09GenData(r, "query", leaves, names, hot, pBad, false)
 	if c.Op == "header" {
 		c.Header = c09GenData(r, "header", leaves, names, hot, pBad, false)
+		c.RawHdr = r.Intn(4) == 0 // names as spelled, not canonicalised
 	}
 	if c.Op == "param" && len(c.Params) == 0 || c.Op == "query" && len(c.Query) == 0 {
 		c.Query = append(c.Query, c09KV{K: "id", V: []string{"1"}})
@@ -433,24 +440,37 @@ func c09GenCase(r *rand.Rand) *c09Case {
 		case 1:
 			c.Truncate = 1 + r.Intn(40)
 		}
-	case k < 78:
+	case k < 76:
 		c.BodyKind = "raw"
 		c.Body = c09JSONBody(r, leaves)
-		c.CType = "application/json"
+		if r.Intn(4) == 0 { // a defect in the middle of the document
+			c.Body = c09DamageJSON(r, c.Body).Doc
+		}
+		c.CType = c09JSONTypes[r.Intn(len(c09JSONTypes))]
 		if r.Intn(3) == 0 {
 			c.CType = c09CTypes[r.Intn(len(c09CTypes))]
 		}
 	case k < 86:
 		c.BodyKind = "raw"
-		c.Body = c09XMLBody(r, c.Fields)
-		c.CType = []string{"application/xml", "text/xml"}[r.Intn(2)]
-		if r.Intn(3) == 0 {
+		if t, err := c09DestType(c); err == nil && r.Intn(4) != 0 {
+			c.Body = c09XMLOfType(r, t, false)
+		} else {
+			c.Body = c09XMLBody(r, c.Fields)
+		}
+		if r.Intn(3) == 0 { // a defect in the middle of the document
+			c.Body = c09DamageXML(r, c.Body).Doc
+		}
+		c.CType = c09XMLTypes[r.Intn(len(c09XMLTypes))]
+		if r.Intn(4) == 0 {
 			c.CType = c09CTypes[r.Intn(len(c09CTypes))]
 		}
 	default:
 		c.BodyKind = "raw"
 		c.Body = []string{"hello", "id=5&name=x", "{}", "\x00\x01", "a=%zz"}[r.Intn(5)]
 		c.CType = c09CTypes[r.Intn(len(c09CTypes))]
+	}
+	if r.Intn(4) == 0 { // header data present while Bind / BindBody run: they never look at it
+		c.Header = c09GenData(r, "header", leaves, names, hot, pBad, false)
 	}
 	if r.Intn(14) == 0 { // a malformed pair in the URL query
 		c.RawTail = []string{"&bad=%zz", "&%zz=1", "&a=%", ";a=1", "&x=%G1&id=5", "&name=%"}[r.Intn(6)]
@@ -569,6 +589,12 @@ func c09CatLeaves(name string) []c09GenLeaf {
 	case "file-plain":
 		return []c09GenLeaf{{map[string]string{"form": "before"}, "string", "Before"}, {map[string]string{"form": "f", "query": "f"}, "file", "F"},
 			{map[string]string{"form": "after", "query": "after"}, "string", "After"}}
+	case "separators":
+		four := func(h, o string) map[string]string {
+			return map[string]string{"header": h, "query": o, "form": o, "param": o}
+		}
+		return []c09GenLeaf{{four("X-Is-Admin", "is-admin"), "bool", "Dash"}, {four("x_legacy_id", "legacy_id"), "string", "Under"}, {four("x.trace", "trace.id"), "string", "Dot"},
+			{all("userid"), "int", "Plain"}, {all("x-id"), "string", "Both1"}, {all("x_id"), "string", "Both2"}, {map[string]string{}, "string", "Untagged"}}
 	case "mass":
 		return []c09GenLeaf{{map[string]string{"param": "id"}, "int", "ID"}, {map[string]string{"query": "name", "form": "name"}, "string", "Name"}, {map[string]string{}, "bool", "IsAdmin"},
 			{map[string]string{}, "string", "Role"}, {map[string]string{"header": "x-balance"}, "int", "Balance"}, {map[string]string{}, "string", "Owner"},
@@ -589,6 +615,9 @@ func c09Gen(r *rand.Rand, tier string) []any {
 	out = append(out, c09ProcessBlock(r)...)
 	out = append(out, c09LengthBlock(r)...)
 	out = append(out, c09Round7Block(r)...)
+	out = append(out, c09SeparatorBlock(r)...)
+	out = append(out, c09MalformedDocBlock(r)...)
+	out = append(out, c09ManyKeysBlock(r)...)
 	for i := 0; i < n; i++ {
 		out = append(out, c09GenCase(r))
 	}
@@ -928,6 +957,9 @@ func c09NearMissBlock(r *rand.Rand) []any {
 				for i := 0; i < 3; i++ {
 					pick = append(pick, all[r.Intn(len(all))])
 				}
+				if sv := c09SeparatorVariants(t); len(sv) > 0 {
+					pick = append(pick, sv[r.Intn(len(sv))])
+				}
 				for _, key := range pick {
 					kv := []c09KV{{K: key, V: []string{c09ValueFor(r, lf.Kind, 30)}}}
 					c := &c09Case{Dest: "cat:" + name, InitSeed: r.Int63()}
@@ -1090,6 +1122,31 @@ func c09Shrink(ci any) []any {
 		d.RawTail = ""
 		out = append(out, &d)
 	}
+	if c.RawHdr {
+		d := *c
+		d.RawHdr = false
+		out = append(out, &d)
+	}
+	for _, m := range c08ShrinkPad(c.Junk) {
+		d := *c
+		d.Junk = m
+		out = append(out, &d)
+	}
+	if (c.Op == "bind" || c.Op == "body") && len(c.Header) > 0 {
+		d := *c
+		d.Header = nil
+		out = append(out, &d)
+	}
+	if c.BodyKind == "raw" && len(c.Body) > 8 { // documents: drop a chunk from the front part, the middle, the end
+		n := len(c.Body)
+		for _, cut := range [][2]int{{n / 2, n}, {n / 4, n / 2}, {1, n / 4}, {n - 1, n}} {
+			if cut[0] < cut[1] {
+				d := *c
+				d.Body = c.Body[:cut[0]] + c.Body[cut[1]:]
+				out = append(out, &d)
+			}
+		}
+	}
 	if c.Serial != "" || c.Binder != "" {
 		d := *c
 		d.Serial, d.Binder = "", ""
@@ -1112,7 +1169,42 @@ func c09Shrink(ci any) []any {
 func c09Mutate(r *rand.Rand, ci any) []any {
 	c := ci.(*c09Case)
 	var out []any
-	for _, m := range []string{"GET", "POST", "DELETE", "PUT"} {
+	// keys that DO hit: every tag the destination has for a source, value `1` (a tie on a request whose keys
+	// reach nothing says little; the same request aimed at the tags shows which source is (not) applied)
+	if t, err := c09DestType(c); err == nil && t.Kind() == reflect.Struct {
+		aim := func(src string) []c09KV {
+			var l []c09KV
+			seen := map[string]bool{}
+			for _, lf := range c09TypeLeaves(t) {
+				if tg := lf.Tags[src]; tg != "" && !seen[tg] {
+					seen[tg] = true
+					l = append(l, c09KV{K: tg, V: []string{"1"}})
+				}
+			}
+			return l
+		}
+		if len(c.Params) > 0 {
+			d := *c
+			d.Params = aim("param")
+			out = append(out, &d)
+		}
+		if len(c.Query) > 0 {
+			d := *c
+			d.Query = aim("query")
+			out = append(out, &d)
+		}
+		if len(c.Form) > 0 {
+			d := *c
+			d.Form = aim("form")
+			out = append(out, &d)
+		}
+		if len(c.Header) > 0 {
+			d := *c
+			d.Header = aim("header")
+			out = append(out, &d)
+		}
+	}
+	for _, m := range []string{"GET", "POST", "DELETE", "PUT", "HEAD"} {
 		if c.Op == "bind" && m != c.Method {
 			d := *c
 			d.Method = m
@@ -1122,7 +1214,8 @@ func c09Mutate(r *rand.Rand, ci any) []any {
 	perturb := func(l []c09KV) [][]c09KV {
 		var res [][]c09KV
 		for i, kv := range l {
-			for _, k := range []string{kv.K + "x", strings.ToUpper(kv.K), strings.ToLower(kv.K), "x" + kv.K, kv.K + "[]", strings.TrimSuffix(kv.K, "[]"), kv.K + ".", "_" + kv.K} {
+			alts := []string{kv.K + "x", strings.ToUpper(kv.K), strings.ToLower(kv.K), "x" + kv.K, kv.K + "[]", strings.TrimSuffix(kv.K, "[]"), kv.K + ".", "_" + kv.K}
+			for _, k := range append(alts, c09SeparatorVariants(kv.K)...) {
 				if k == kv.K {
 					continue
 				}
@@ -1130,9 +1223,11 @@ func c09Mutate(r *rand.Rand, ci any) []any {
 				n[i] = c09KV{K: k, V: kv.V}
 				res = append(res, n)
 			}
-			n := append([]c09KV(nil), l...)
-			n[i] = c09KV{K: kv.K, V: []string{"abc"}}
-			res = append(res, n)
+			for _, v := range []string{"abc", "1"} { // a text no numeric / bool field takes; a text every kind takes
+				n := append([]c09KV(nil), l...)
+				n[i] = c09KV{K: kv.K, V: []string{v}}
+				res = append(res, n)
+			}
 		}
 		return res
 	}
@@ -1167,6 +1262,41 @@ func c09Mutate(r *rand.Rand, ci any) []any {
 			d.CType = c09CTypes[r.Intn(len(c09CTypes))]
 			out = append(out, &d)
 		}
+		if c.BodyKind == "raw" {
+			isXML := strings.Contains(c.CType, "xml")
+			for k := 0; k < 12; k++ {
+				d := *c
+				if isXML {
+					d.Body, d.CType = c09DamageXML(r, c.Body).Doc, c09XMLTypes[r.Intn(len(c09XMLTypes))]
+				} else {
+					d.Body = c09DamageJSON(r, c.Body).Doc
+				}
+				out = append(out, &d)
+			}
+			// a complete document for this destination with exactly ONE defect of each kind (the case at hand may
+			// be malformed in several ways at once, which hides which defect is being tolerated)
+			if t, err := c09DestType(c); err == nil && isXML {
+				doc := c09XMLOfType(r, t, true)
+				for _, dm := range c09DamageXMLAt(doc, c09XMLBoundaries(doc)[0]) {
+					d := *c
+					d.Body = dm.Doc
+					out = append(out, &d)
+				}
+			} else if strings.HasPrefix(c.Dest, "cat:") && !isXML {
+				doc := c09JSONOfLeaves(r, c09CatLeaves(strings.TrimPrefix(c.Dest, "cat:")))
+				b := c09JSONBoundaries(doc)
+				for _, dm := range c09DamageJSONAt(doc, b[len(b)/2]) {
+					d := *c
+					d.Body = dm.Doc
+					out = append(out, &d)
+				}
+			}
+		}
+	}
+	if c.Op == "header" {
+		d := *c
+		d.RawHdr = !c.RawHdr
+		out = append(out, &d)
 	}
 	return out
 }
@@ -1174,12 +1304,13 @@ func c09Mutate(r *rand.Rand, ci any) []any {
 func init() {
 	register(&Prop{
 		ID:             "C09",
-		Rule:           "destinations: reflect.StructOf shapes (2-8 fields, nesting depth <=3; string/int/int8/uint16/bool, pointers, slices, nested and embedded structs and pointers to structs, map / interface / unmarshaler / unexported fields; tagged for a random subset of {param,query,form,header}, untagged, or tagged differently per source), 7 hand-written catalogue types (embedded named / pointer / tagged embedded, unexported, unmarshalers, map and interface fields, mass-assignment), map[string]T and non-struct destinations; random initial values; requests: BindPathParams / BindQueryParams / BindHeaders / c.Bind x 10 method spellings x 26 Content-Type spellings x {no body, urlencoded, multipart, JSON, XML, junk} x ContentLength {exact, -1, 0}; keys = tags of the source, tags of OTHER sources, Go field names, json names, case variants, Unicode look-alikes, junk; the same field addressed through 2-3 sources at once; non-trivial = some applied source carries a key equal (under folding) to a tag of a reachable field; distinct = distinct model op lines",
+		Rule:           "destinations: reflect.StructOf shapes (2-8 fields, nesting depth <=3; string/int/int8/uint16/bool, pointers, slices, nested and embedded structs and pointers to structs, map / interface / unmarshaler / unexported fields; tagged for a random subset of {param,query,form,header}, untagged, or tagged differently per source), 7 hand-written catalogue types (embedded named / pointer / tagged embedded, unexported, unmarshalers, map and interface fields, mass-assignment), map[string]T and non-struct destinations; random initial values; requests: BindPathParams / BindQueryParams / BindHeaders / c.Bind x 10 method spellings x 26 Content-Type spellings x {no body, urlencoded, multipart, JSON, XML, junk} x ContentLength {exact, -1, 0}; keys = tags of the source, tags of OTHER sources, Go field names, json names, case variants, Unicode look-alikes, tag plus an affix, SEPARATOR variants of the tag (`-` / `_` / `.` / blank exchanged, dropped or inserted, CGI spelling HTTP_X_Y), junk; header names canonical or as spelled; header data present while Bind / BindBody run; key sets of 257 / 1025 / 4097 keys with the keys that matter last; JSON and XML documents with ONE defect in the middle (36 XML defects: stray / mismatched / overlapping end tags, bare &, HTML entities, unclosed <br>, unquoted attributes, control bytes, no root element …; 27 JSON defects: trailing / doubled comma, single quotes, unquoted keys, comments, NaN, 01, bad escapes …) under 8 spellings of the XML and 5 of the JSON media type; the same field addressed through 2-3 sources at once; non-trivial = some applied source carries a key equal (under folding) to a tag of a reachable field; distinct = distinct model op lines",
 		New:            func() any { return &c09Case{} },
 		Gen:            c09Gen,
 		Run:            c09Run,
 		Shrink:         c09Shrink,
 		Mutate:         c09Mutate,
+		Tolerable:      c09Tolerable,
 		Correspondence: "C09.bindData / C09.bind (lean/EchoModel/C09.lean) vs DefaultBinder.BindPathParams/BindQueryParams/BindHeaders/Bind",
 	})
 }
